@@ -107,7 +107,7 @@ CHECKS = {
              "`<` is decided by the sequence numbers whenever they differ; lemma L15.sort (induction step: the ascending arrangement of distinct numbers is unique). "
              "Bounded (labelled): group/ungroup keep the multiset and, for distinct headings, the text; blocks move as units; resequence+shuffle+sort restores the order; "
              "TCAM unchanged - on all item lists of <= 4/5 items over 9 kinds, flat, grouped, and built from objects with a top level that mixes plain entries and blocks.",
-        note="Known finding: a repeated heading remark is dropped by group() (pinned by tests). Acl.group/_ungroup/Group methods not proved. " + TB),
+        note="Known finding: a repeated heading remark is dropped by group() (pinned by tests). Group.append/reverse/clear/__len__ proved (contracts/c_listops.py); Acl.group/_ungroup and the *args list methods not proved. " + TB),
     "C19": dict(
         level="other", design_ref="DESIGN.md 5/C19",
         technique="SMT lemma L19.replace + bounded contract checking of Ace/AceGroup/Acl.ungroup_ports with the independent reader",
@@ -153,10 +153,10 @@ CHECKS = {
         note="Not applicable to deduction: aliasing through **data()/__dict__.update needs an ownership logic the verifier does not have. Three defects found here were fixed in /repo."),
     "C17": dict(
         level="other", design_ref="DESIGN.md 5/C17",
-        technique="bounded model-based contract checking: per-operation contract View' == Model_op(View) from all states reached by short operation sequences",
+        technique="contracts on the list primitives Group.append/reverse/clear/__len__ discharged by own VC generator; bounded model-based contract checking: per-operation contract View' == Model_op(View) from all states reached by short operation sequences",
         text="20 operations (with arguments) from 5 seed ACLs: all sequences of <= 2/3 operations plus seeded random sequences of 3..8; after every step the rendered text "
              "re-parses to itself and, read independently, is exactly the rule list predicted by a reference model (blocks, numbers, splits, shadow removal).",
-        note="Whole-history quantifier: only the per-operation base case is checkable; no deductive obligation."),
+        note="Whole-history quantifier: only the per-operation base case is checkable; the discharged obligations cover the list layer (Group.append/reverse/clear/__len__) only, insert/pop/sort take *args and stay bounded."),
     "C18": dict(
         level="other", design_ref="DESIGN.md 5/C18",
         technique="contract on functions._split_range_for_ace (list of lists, loop invariant) discharged by own VC generator; bounded contract checking of range_ports / "
